@@ -25,12 +25,21 @@ NON_PIPELINE = re.compile(r"^(debug_dump|main$|ProgramData\._print_|DFA\.(simula
 
 # --- frozen triage tables (one reason each); keys are (function, construct) -----------------------------------------------------
 RAISE_TRIAGE = {
-    ("DFConditionPoint.__getitem__", "NotImplementedError"): "condition points are never subscripted: every subscript site of a possibly-condition-point state is behind an isinstance(.., DFConditionPoint) dispatch or a can_eliminate() guard",
+    ("DFConditionPoint.__getitem__", "NotImplementedError"): "subscripted states are end states of a construct, the start of a chained machine, or states met while walking transitions of matching "
+        "states; a condition point can only become one of these as the start of a body - re-checked: RAISE_REQUIRES",
     ("DFConditionPoint.__delitem__", "NotImplementedError"): "same as __getitem__",
     ("DFConditionPoint.__setitem__", "NotImplementedError"): "same as __getitem__",
     ("CodegenCtx._convert_literal_value", "NotImplementedError"): "LiteralIntegerExpr is only constructed with BOOL / INT / ENUM types (constructor call sites), STR is handled, RAW cannot hold a literal",
     ("ProgramData.load_commandline_flags", "RuntimeError"): "the CLI's own diagnosed error type (caught and printed by main)",
     ("ProgramData.load_commandline_flags.aux", "RuntimeError"): "the CLI's own diagnosed error type",
+}
+# constructs a triaged raise rests on: re-matched on every run (a vanished construct un-triages the raise)
+RAISE_REQUIRES = {
+    ("DFConditionPoint.__getitem__", "NotImplementedError"): [
+        ("OptionalNode.convert", "if isinstance(sub_dfa.starting_state, DFProxyState):\n    raise IllegalDFAStateError($$m, sub_dfa.starting_state)"),       # the only place a start state is made an end state
+        ("DFA.append_after", "if isinstance(chained_dfa.starting_state, DFProxyState):\n    ..."),                                                               # a proxy start of the chained machine is wrapped
+        ("LoopNode.convert", "if isinstance(loop_start, DFProxyState):\n    ...\nelse:\n    restart = loop_start[symbol]\n    ..."),                               # loop-back test dispatches on the kind of start
+    ],
 }
 ASSERT_TRIAGE = {
     ("ParseCtx._lookup_named_entity", "from_tree.type == 'IDENTIFIER'"): "checked: every call site passes children[0] of a label whose first child is an IDENTIFIER token (grammar typing, C18.a2)",
@@ -82,7 +91,10 @@ def run(ctx, rep, tier):
             if (q, r.lineno) in dead:
                 rep.ok("C18.a", q, f"raise {cls}: dead - {dead[(q, r.lineno)]}")
             elif key in RAISE_TRIAGE:
-                rep.ok("C18.a", q, f"raise {cls}: triaged - {RAISE_TRIAGE[key][:70]}", nontrivial=False)
+                reqs = RAISE_REQUIRES.get(key, [])
+                missing = [fq for fq, pat in reqs if not model.has(fq, pat)]
+                rep.check(not missing, "C18.a", q, f"raise {cls}: triaged - {RAISE_TRIAGE[key][:70]}", f"`raise {cls}` in {q} was unreachable because of a construct in {missing} that is gone: "
+                          "it now reaches the user as an internal exception (e.g. `optional { if .. }` subscripting a condition point)")
             elif cls == "ValueError" and q == "ParseCtx._convert_binary_string":
                 ok = all_callers_catch(model, "_convert_binary_string", "ValueError")
                 rep.check(ok, "C18.a", q, "raise ValueError: caught at every call site", "ValueError from the binary-string decoder escapes at some call site")
